@@ -160,7 +160,7 @@ def arrivals(res, w, seq, initialised):
     for a in seq:
         kind, n = a[0], a[1]
         echo = None
-        if kind == "resp":
+        if kind in ("resp", "resp-plain"):
             # the context in the client role as well: a response of the peer to an own request, carrying the peer's own Partial
             # IV n (a notification that was overtaken by later requests).  Whatever it is, it is not a request: an initialised
             # window stays as it is, so nothing accepted before becomes acceptable again.
@@ -169,7 +169,10 @@ def arrivals(res, w, seq, initialised):
             outer, myrid = sv.protect(Message(code=codes.GET, uri_path=["own"]))
             cl.recipient_replay_window.initialize_empty()
             _, prid = cl.unprotect(wire(outer)[0])
-            prid.can_reuse_nonce = False
+            if kind == "resp":
+                prid.can_reuse_nonce = False
+            # (resp-plain: an ordinary response that re-uses the request's nonce and carries no Partial IV of its own - there is no
+            # number of the peer in it at all, whatever state the window is in)
             cl.sender_sequence_number = n
             router, _ = cl.protect(Message(code=codes.CONTENT, payload=b"n"), request_id=prid)
             before = sv.recipient_replay_window.persist()
@@ -277,9 +280,9 @@ def alphabet(w, initialised):
     A += [("gen", TOP), ("recode", 1, 0), ("recode", w + 1, 0xE1), ("recode", 2, 0x44)]
     A += [("forge-tag", n) for n in (1, w, 3 * w)] + [("forge-piv", n) for n in (2, 10 * w)]
     if not initialised:
-        A += [("gen", n, "right") for n in (1, w + 1)] + [("gen", 2, "wrong")]
+        A += [("gen", n, "right") for n in (1, w + 1)] + [("gen", 2, "wrong")] + [("resp-plain", 0)]
     else:
-        A += [("resp", 1), ("resp", w)]
+        A += [("resp", 1), ("resp", w), ("resp-plain", 0)]
     return A
 
 
